@@ -77,6 +77,8 @@ def check_family(ctx, aotools, N, rng, L0_inf=False):
     base = (float(10 ** rng.uniform(-2, 0.5)), float(delta * 10 ** rng.uniform(-3, 0.8)))
     # each variant directly follows the base parameters (exercises even a one-entry cache with an incomplete key)
     variants = [base, (base[0] * float(rng.uniform(1.5, 4)), base[1]), base, (base[0], base[1] * float(rng.uniform(2, 6)))]
+    if np.isfinite(L0) and rng.random() < 0.5:
+        variants.append((base[0], L0 * float(rng.uniform(1.5, 5))))       # inner scale larger than the outer scale: legal, if odd
     ctx.count("same_grid_families")
     fn = aotools.ft_phase_screen
     g_probe = ScriptedGenerator([])
@@ -123,8 +125,9 @@ def check_family(ctx, aotools, N, rng, L0_inf=False):
         # ONE standard-normal stream (independent draws), which is what the ensemble statement is about
         for sd in (0, 7, int(rng.integers(0, 2 ** 31))):
             for nm, f_ in (("ft_phase_screen", fn), ("ft_sh_phase_screen", aotools.ft_sh_phase_screen)):
-                s_int = f_(*args, seed=sd)
-                s_gen = f_(*args, seed=np.random.default_rng(sd))
+                kwf = {"FFT": np.fft.ifft2} if sd == 7 else {}            # the FFT= hook must not change the draw structure
+                s_int = f_(*args, seed=sd, **kwf)
+                s_gen = f_(*args, seed=np.random.default_rng(sd), **kwf)
                 ctx.count("int_seed_vs_generator_checks")
                 ctx.close("int_seed_equals_generator_from_seed:" + nm, s_int, s_gen, 1e-12 * sc, nm + ":integer_seed_is_not_one_independent_stream", dict(wit, seed=sd), scale=sc)
         # ---- sub-harmonic variant (N <= 12 keeps the cost low) ----
